@@ -93,47 +93,65 @@ Section Sem.
         rewrite (A2 s s') by agree_sub H.
         rewrite (B2 s s') by agree_sub H. reflexivity.
     - (* n-ary: the three inner loops *)
-      assert (Hgo :
-        (forall s x, In x (fst ((fix go (l : list expr) : list var * rs (list val) :=
+      assert (Hgo : forall acc,
+        (forall s x, In x (fst ((fix go (acc : nacc) (l : list expr) : list var * rs nacc :=
              match l with
-             | [] => ([], Ok [])
-             | a :: l' =>
-                 let (r, v) := eval s a in
+             | [] => ([], Ok acc)
+             | e :: l' =>
+                 let (r, v) := eval s e in
                  match v with
                  | Err u => (r, Err u)
-                 | Ok x => let (r2, vs) := go l' in (r ++ r2, rmap (cons x) vs)
+                 | Ok x =>
+                     match nstep o acc x with
+                     | None => (r, Err false)
+                     | Some acc' => let (r2, res) := go acc' l' in (r ++ r2, res)
+                     end
                  end
-             end) l)) -> In x (flat_map vars l)) /\
+             end) acc l)) -> In x (flat_map vars l)) /\
         (forall s s', agree (fun x => In x (flat_map vars l)) s s' ->
-           (fix go (l : list expr) : list var * rs (list val) :=
+           (fix go (acc : nacc) (l : list expr) : list var * rs nacc :=
              match l with
-             | [] => ([], Ok [])
-             | a :: l' =>
-                 let (r, v) := eval s a in
+             | [] => ([], Ok acc)
+             | e :: l' =>
+                 let (r, v) := eval s e in
                  match v with
                  | Err u => (r, Err u)
-                 | Ok x => let (r2, vs) := go l' in (r ++ r2, rmap (cons x) vs)
+                 | Ok x =>
+                     match nstep o acc x with
+                     | None => (r, Err false)
+                     | Some acc' => let (r2, res) := go acc' l' in (r ++ r2, res)
+                     end
                  end
-             end) l =
-           (fix go (l : list expr) : list var * rs (list val) :=
+             end) acc l =
+           (fix go (acc : nacc) (l : list expr) : list var * rs nacc :=
              match l with
-             | [] => ([], Ok [])
-             | a :: l' =>
-                 let (r, v) := eval s' a in
+             | [] => ([], Ok acc)
+             | e :: l' =>
+                 let (r, v) := eval s' e in
                  match v with
                  | Err u => (r, Err u)
-                 | Ok x => let (r2, vs) := go l' in (r ++ r2, rmap (cons x) vs)
+                 | Ok x =>
+                     match nstep o acc x with
+                     | None => (r, Err false)
+                     | Some acc' => let (r2, res) := go acc' l' in (r ++ r2, res)
+                     end
                  end
-             end) l)).
-      { induction IH as [|a l [A1 A2] _ [G1 G2]]; [split; [intros s x []|reflexivity]|].
+             end) acc l)).
+      { induction IH as [|a l [A1 A2] _ G]; intros acc; [split; [intros s x []|reflexivity]|].
         split.
-        - intros s x. cbn [flat_map]. specialize (A1 s x). specialize (G1 s x).
+        - intros s x. cbn [flat_map]. specialize (A1 s x).
           destruct (eval s a) as [r [v|u]]; cbn [fst] in *.
-          + match goal with |- context [let (_, _) := ?g in _] => destruct g end.
-            cbn [fst] in *. rewrite !in_app_iff. intuition.
+          + destruct (nstep o acc v) as [acc'|]; cbn [fst].
+            * destruct (G acc') as [G1 _]. specialize (G1 s x).
+              match goal with |- context [let (_, _) := ?g in _] => destruct g end.
+              cbn [fst] in *. rewrite !in_app_iff. intuition.
+            * rewrite in_app_iff. intuition.
           + rewrite in_app_iff. intuition.
         - intros s s' H. cbn [flat_map] in H.
           rewrite (A2 s s') by (eapply agree_weaken; [|exact H]; intros ? ?; rewrite in_app_iff; auto).
+          destruct (eval s' a) as [r [v|u]]; [|reflexivity].
+          destruct (nstep o acc v) as [acc'|]; [|reflexivity].
+          destruct (G acc') as [_ G2].
           rewrite (G2 s s') by (eapply agree_weaken; [|exact H]; intros ? ?; rewrite in_app_iff; auto).
           reflexivity. }
       assert (Hand : forall (stop : bool),
@@ -239,9 +257,10 @@ Section Sem.
       { intros s. clear. induction l as [|a l IHl]; [reflexivity|].
         destruct (eval s a) as [r v]. destruct (rbind v _) as [[|]|u]; cbn [Bool.eqb]; try reflexivity.
         rewrite IHl. reflexivity. }
-      destruct Hgo as [G1 G2]. cbn [vars].
+      cbn [vars].
       destruct o; cbn [Lang.eval];
-        try (split; [intros s x; specialize (G1 s x);
+        try (match goal with |- context [ninit ?o0] => destruct (Hgo (ninit o0)) as [G1 G2] end;
+             split; [intros s x; specialize (G1 s x);
                      match goal with |- context [let (_, _) := ?g in _] => destruct g end; exact G1
                     |intros s s' H; rewrite (G2 s s' H); reflexivity]).
       + destruct (Hand false) as [H1 H2]. split.
@@ -426,12 +445,6 @@ Section Stmt.
   Definition loop_bound_vars (loops : list (var * expr * expr)) : list var :=
     flat_map (fun l => vars (snd (fst l)) ++ vars (snd l)) loops.
 
-  Lemma eval_bound_reads s e x : In x (fst (eval_bound F s e)) -> In x (vars e).
-  Proof. unfold eval_bound. pose proof (eval_reads F s e x). destruct (eval s e). exact H. Qed.
-
-  Lemma eval_bound_frame s s' e : agree (fun x => In x (vars e)) s s' -> eval_bound F s e = eval_bound F s' e.
-  Proof. intros H. unfold eval_bound. now rewrite (eval_frame F s s' e H). Qed.
-
   Section Loops.
     Variable body : store -> list access * rs store.
 
@@ -443,10 +456,14 @@ Section Stmt.
     Proof.
       intros Hb. induction loops as [|[[ident lo] hi] ls IH]; intros HR HW s; cbn [run_loops]; [apply Hb|].
       cbn [loop_bound_vars loop_idents flat_map map fst snd] in HR, HW.
-      pose proof (eval_bound_reads s lo) as Hlo. pose proof (eval_bound_reads s hi) as Hhi.
-      destruct (eval_bound F s lo) as [r1 [a|u]]; cbn [fst] in *.
-      - destruct (eval_bound F s hi) as [r2 [b|u]]; cbn [fst] in *.
-        + assert (Hit := iter_range_acc ident (run_loops F ls body) R W
+      pose proof (eval_reads F s lo) as Hlo. pose proof (eval_reads F s hi) as Hhi.
+      destruct (eval s lo) as [r1 [vl|u]]; cbn [fst] in *.
+      - destruct (eval s hi) as [r2 [vh|u]]; cbn [fst] in *.
+        + assert (Hbad : Forall (acc_ok R W) (rds r1 ++ rds r2)).
+          { rewrite Forall_app. split; apply rds_ok; intros y Hy; apply HR; rewrite !in_app_iff; auto. }
+          destruct (bound_int vl) as [a|u1]; [|exact Hbad].
+          destruct (bound_int vh) as [b|u2]; [|exact Hbad].
+          assert (Hit := iter_range_acc ident (run_loops F ls body) R W
                    (IH (fun y Hy => HR y ltac:(rewrite !in_app_iff; auto))
                        (fun y Hy => HW y (or_intror Hy)))
                    (HW ident (or_introl eq_refl)) (Z.to_nat (b - a)) a s).
@@ -465,8 +482,10 @@ Section Stmt.
       intros Hb. induction loops as [|[[ident lo] hi] ls IH]; intros s a s' H y Hq Hy; cbn [run_loops] in H.
       - eapply Hb; eassumption.
       - cbn [loop_idents map fst] in Hy.
-        destruct (eval_bound F s lo) as [r1 [lo'|u]]; [|discriminate].
-        destruct (eval_bound F s hi) as [r2 [hi'|u]]; [|discriminate].
+        destruct (eval s lo) as [r1 [vl|u]]; [|discriminate].
+        destruct (eval s hi) as [r2 [vh|u]]; [|discriminate].
+        destruct (bound_int vl) as [lo'|u1]; [|discriminate].
+        destruct (bound_int vh) as [hi'|u2]; [|discriminate].
         destruct (iter_range _ _ _ _ _) as [acc res] eqn:E. injection H as _ ->.
         eapply (iter_range_unch ident (run_loops F ls body) (fun z => Q z \/ In z (loop_idents ls))).
         + intros s0 a0 s1 H0 z Hz. eapply IH; [exact H0| |]; intuition.
@@ -485,12 +504,14 @@ Section Stmt.
     Proof.
       intros Hb. induction loops as [|[[ident lo] hi] ls IH]; intros HR HW s s' H; cbn [run_loops]; [auto|].
       cbn [loop_bound_vars loop_idents flat_map map fst snd] in HR, HW.
-      rewrite (eval_bound_frame s s' lo) by (eapply agree_weaken; [|exact H]; cbn; intros; apply HR;
+      rewrite (eval_frame F s s' lo) by (eapply agree_weaken; [|exact H]; cbn; intros; apply HR;
                                               rewrite !in_app_iff; auto).
-      rewrite (eval_bound_frame s s' hi) by (eapply agree_weaken; [|exact H]; cbn; intros; apply HR;
+      rewrite (eval_frame F s s' hi) by (eapply agree_weaken; [|exact H]; cbn; intros; apply HR;
                                               rewrite !in_app_iff; auto).
-      destruct (eval_bound F s' lo) as [r1 [a|u]]; [|split; reflexivity].
-      destruct (eval_bound F s' hi) as [r2 [b|u]]; [|split; reflexivity].
+      destruct (eval s' lo) as [r1 [vl|u]]; [|split; reflexivity].
+      destruct (eval s' hi) as [r2 [vh|u]]; [|split; reflexivity].
+      destruct (bound_int vl) as [a|u1]; [|split; reflexivity].
+      destruct (bound_int vh) as [b|u2]; [|split; reflexivity].
       destruct (iter_range_frame ident (run_loops F ls body) P (HW ident (or_introl eq_refl))
                  (IH (fun y Hy => HR y ltac:(rewrite !in_app_iff; auto)) (fun y Hy => HW y (or_intror Hy)))
                  (Z.to_nat (b - a)) a s s' H) as [E1 E2].
